@@ -515,6 +515,11 @@ def build_base(ctx, rng, coupled, lat, lon, S, **kw):
     # order - e.g. the transpose of a C array -, strided view, read-only)
     S, htag = as_held(rng, S, forms=("c", "c", "c", "f", "view", "readonly"))
     ctx.count("similarity_held_as:" + htag)
+    # (switches in a type a caller may hold them in: bool, np.bool_, 0 / 1)
+    from pvm.gen.held import as_flag
+    for key in ("non_local", "directed"):
+        if key in kw:
+            kw[key] = as_flag(rng, kw[key])
     if coupled:
         n1 = int(rng.integers(1, n))
         return ctx.call(CoupledClimateNetwork,
@@ -825,6 +830,9 @@ def sub_build(ctx, rng, name, obs, lat, lon, extra, **kw):
         d2 = go.climate_data(obs[:, n1:], lat[n1:], lon[n1:])
         return ctx.call(cls, d1, d2, silence_level=3, **kw)
     data = go.climate_data(obs.copy(), lat, lon)
+    from pvm.gen.held import as_flag
+    if "non_local" in kw:
+        kw["non_local"] = as_flag(rng, kw["non_local"])
     if name == "EventSeriesClimateNetwork":
         from pyunicorn.climate.eventseries_climatenetwork import \
             EventSeriesClimateNetwork
@@ -835,11 +843,11 @@ def sub_build(ctx, rng, name, obs, lat, lon, extra, **kw):
     if name in ("TsonisClimateNetwork", "SpearmanClimateNetwork",
                 "PartialCorrelationClimateNetwork",
                 "MutualInfoClimateNetwork"):
-        kw["winter_only"] = False
+        kw["winter_only"] = as_flag(rng, False)
     elif name == "HilbertClimateNetwork":
-        kw["directed"] = False
+        kw["directed"] = as_flag(rng, False)
     elif name == "HilbertClimateNetwork:directed":
-        kw["directed"] = True
+        kw["directed"] = as_flag(rng, True)
     elif name == "HavlinClimateNetwork":
         kw["max_delay"] = extra["max_delay"]
     return ctx.call(cls, data, silence_level=3, **kw)
